@@ -147,6 +147,9 @@ def simplify(record):
         if a[i][0] < a[i][1]:
             r2 = copy.deepcopy(record)
             r2['obs']['area'][i][j] += d
-            if record['obs']['name'] == 'partially_occluded' and r2['obs']['area'][0][1] != 0:
+            if record['obs']['name'] == 'partially_occluded' and r2['obs']['area'][0][1] != 0 and record['obs']['area'][0][1] == 0:
                 continue
+            a2 = r2['obs']['area']
+            if record['obs']['name'] != 'fully_transparent' and not (a2[0][0] <= 0 <= a2[0][1] and a2[1][0] <= 0 <= a2[1][1]):
+                continue  # the other functions need the agent's cell inside the view
             yield r2
